@@ -120,3 +120,8 @@ def run(ctx):
                       % (line, json.dumps(ev), r0["mode"], r0["prog"]),
                       {"cmd": "sched_refcount %s %d %s replay %s" % (r0["mode"], r0["pool"], r0["prog"], r0["sched"]), "trace": h, "source": source})
     ctx.trusted += ["harness/vsched.c", "TLC"]
+
+
+def replay(ctx, rp):
+    from checks import schedreplay
+    return schedreplay.replay_cmd(ctx, rp, "C09", {"sched_refcount": dict(src=SRC, trace=("Ref_Trace", "Ref_Trace.cfg"))})
